@@ -36,7 +36,12 @@ GRelayout == \E f \in File :
              /\ open[f] # None
              /\ LET t == [open[f] EXCEPT !.lay = 1 - @] IN
                 Change(f, t) /\ hist' = Append(hist, [ev |-> "Change", file |-> f, t |-> t])
-GNext == Len(hist) < MaxEvents /\ (GOpen \/ GChange \/ GRelayout)
+\* the editor closes a document and opens it again with the text it had (the server keeps the buffer of a closed document):
+\* nothing changes but the root
+GReopen == \E f \in File :
+             /\ open[f] # None /\ root # f
+             /\ Open(f, open[f]) /\ hist' = Append(hist, [ev |-> "Reopen", file |-> f, t |-> open[f]])
+GNext == Len(hist) < MaxEvents /\ (GOpen \/ GChange \/ GRelayout \/ GReopen)
 GSpec == GInit /\ [][GNext]_gvars
 
 EmitSession == Len(hist) > 0 =>
